@@ -372,7 +372,9 @@ def correspondence(ctx):
     corr_normalizers(ctx, rng, out)
     corr_pipeline(ctx, np.random.RandomState(ctx.seed + 1801), out)
     keys = out.pop("keys")
-    out["distinct_nontrivial"] = len(keys)
+    out["distribution"]["driver_ops"] = out["evaluations"]
+    out["evaluations"] = max(out["evaluations"], out["elements"])   # one evaluation = one compared array element / scalar op
+    out["distinct_nontrivial"] = min(len(keys), out["evaluations"])
     out["rule"] = ("7 classes x parameter grid (0, 2, both signs, values inside / on / just outside the isclose bands, random) "
                    "x {ranges+isclose flags (exact), normalize, denormalize, derivative (elementwise incl. NaN mask, +-inf, "
                    "boundaries, nextafter(boundary), out-of-range; warning flag), loglikelihood+kernel}; pipelines through "
